@@ -58,7 +58,7 @@ def Sampling.scale (k : ℚ) : Sampling → Sampling
 
 theorem samplingOf_scale (k : ℚ) (hk : 0 < k) (m : Sampling) (w1 w2 : List ℚ) :
     samplingOf (m.scale k) (w1.map (· * k)) (w2.map (· * k)) = (samplingOf m w1 w2).map (· * k) := by
-  cases m <;> simp only [Sampling.scale, samplingOf, minDiff_scale k hk]
+  cases m <;> simp only [Sampling.scale, samplingOf_eq, minDiff_scale k hk]
   · cases minDiff w1 <;> cases minDiff w2 <;> simp [min_mul_of_nonneg _ _ (le_of_lt hk)]
   · rfl
 
